@@ -41,6 +41,8 @@ impl S3Storage {
         let mut changed_keys = 0;
         let rt = Runtime::new().unwrap();
         let keys_to_update = get_keys_to_update(db, reclame_space);
+        #[cfg(nundb_verif)]
+        crate::verif_hooks::record_key_order(keys_to_update.iter().map(|(k, _)| k.clone()).collect());
 
         let key_buffer = BytesMut::with_capacity(OP_RECORD_SIZE * 10);
         //@todo should this really be te buffer size of the values????
